@@ -2,7 +2,7 @@
 # tools/seed_all.sh [names...]  - runs tools/try_seed.sh for the given seeds (default: all) with the properties listed in
 # seeded/<name>/props (default: the property the seed is named after); appends to seeded/results.log
 cd /verif
-names="$@"; [ -z "$names" ] && names=$(ls seeded | grep -E '^(C[0-9]+[a-z]|R[0-9]+|W[0-9][a-z]|V[0-9]+[a-z]|X[0-9]+[a-z]|Z[0-9][a-z]|X[0-9a-z]+)$')
+names="$@"; [ -z "$names" ] && names=$(ls seeded | grep -E '^(C[0-9]+[a-z]|R[0-9]+|W[0-9][a-z]|V[0-9]+[a-z]|X[0-9]+[a-z]|Z[0-9][a-z]|Y[0-9]+[a-z]|U[0-9][a-z]|X[0-9a-z]+)$')
 for n in $names; do
   d=seeded/$n
   props=$(cat $d/props 2>/dev/null); [ -z "$props" ] && props=${n%?}
